@@ -309,4 +309,144 @@ theorem kLoop_rel (prm : Params K) (ip : Vec K → Vec K → K) (sqrt : K → K)
       · rw [kLoop, h1]
       · rw [kLoop, h2]
 
+/-! ### one pass of the `while` body -/
+
+/-- the first statement of a pass overwrites `f[i]`, `i < s` -/
+theorem bodyF_rel (prm : Params K) (ip : Vec K → Vec K → K) (Pv : FArr (Vec K)) (st st' : St K)
+    (h : Rel prm st st') : RelF prm (bodyF prm ip Pv st) (bodyF prm ip Pv st') := by
+  obtain ⟨hit, hres, hom, hbrk, hx, hr, hsm, hGU, hM⟩ := h
+  refine ⟨⟨hit, hres, hom, hbrk, hx, hr, hsm, hGU, hM⟩, ?_⟩
+  show ∀ i, i < prm.s →
+    ((List.range prm.s).foldl (fun f i => setF f i (ip st.w.r (Pv i))) st.w.f) i =
+    ((List.range prm.s).foldl (fun f i => setF f i (ip st'.w.r (Pv i))) st'.w.f) i
+  rw [hr]
+  apply foldl_range_rel _ _ (fun n (f f' : FArr K) => ∀ i, i < n → f i = f' i)
+  · intro i hi; omega
+  · intro n f f' _ hff i hi
+    show (setF f n _).get i = (setF f' n _).get i
+    rw [setF_get, setF_get]
+    by_cases hin : i = n
+    · rw [if_pos hin, if_pos hin]
+    · rw [if_neg hin, if_neg hin]; exact hff i (by omega)
+
+theorem tail_rel (prm : Params K) (ip : Vec K → Vec K → K) (sqrt : K → K) (A : CRS K) (Prec : Vec K → Vec K)
+    (rhs : Vec K) (epsT : K) (st st' : St K) (h : Rel prm st st') :
+    (∃ t t', tail prm ip sqrt A Prec rhs epsT st = .ok t ∧ tail prm ip sqrt A Prec rhs epsT st' = .ok t' ∧
+       Rel prm t t') ∨
+    (∃ e t t', tail prm ip sqrt A Prec rhs epsT st = .error (e, t) ∧
+       tail prm ip sqrt A Prec rhs epsT st' = .error (e, t') ∧ Rel prm t t') := by
+  obtain ⟨hit, hres, hom, hbrk, hx, hr, hsm, hGU, hM⟩ := h
+  have ebt : bt A Prec st = bt A Prec st' := by
+    unfold bt; rw [hr]; exact spmv_z' A _ _ _
+  have ebom : bom prm ip sqrt A Prec st = bom prm ip sqrt A Prec st' := by
+    unfold bom; rw [ebt, hr]
+  have ebx : bx prm ip sqrt A Prec st = bx prm ip sqrt A Prec st' := by
+    unfold bx; rw [ebom, hr, hx]
+  have hw1 : RelW prm (bw1 A Prec st) (bw1 A Prec st') := ⟨hr, hsm, hGU, hM⟩
+  have hw2 : RelW prm (bw2 prm ip sqrt A Prec rhs st) (bw2 prm ip sqrt A Prec rhs st') := by
+    refine ⟨?_, hsm, hGU, hM⟩
+    show (if prm.replacement then residual rhs A (bx prm ip sqrt A Prec st)
+          else axpby (-(bom prm ip sqrt A Prec st)) (bt A Prec st) 1 st.w.r) =
+         (if prm.replacement then residual rhs A (bx prm ip sqrt A Prec st')
+          else axpby (-(bom prm ip sqrt A Prec st')) (bt A Prec st') 1 st'.w.r)
+    rw [ebx, ebom, ebt, hr]
+  obtain ⟨p1, p2, _, _⟩ := post_rel prm ip sqrt _ _ (bx prm ip sqrt A Prec st') hw2
+  unfold tail
+  by_cases c1 : ¬ epsT < st'.resNorm ∨ prm.maxiter ≤ st'.iter
+  · rw [if_pos c1, if_pos (by rw [hres, hit]; exact c1)]
+    left
+    exact ⟨_, _, rfl, rfl, hit, hres, hom, rfl, hx, hr, hsm, hGU, hM⟩
+  · rw [if_neg c1, if_neg (by rw [hres, hit]; exact c1)]
+    by_cases c2 : bom prm ip sqrt A Prec st' = 0
+    · rw [if_pos c2, if_pos (ebom.trans c2)]
+      right
+      exact ⟨_, _, _, rfl, rfl, hit, hres, ebom, hbrk, hx, hw1⟩
+    · rw [if_neg c2, if_neg (fun hh => c2 (ebom.symm.trans hh))]
+      left
+      refine ⟨_, _, rfl, rfl, ?_, ?_, ebom, rfl, ebx, ?_⟩
+      · show st.iter + 1 = st'.iter + 1
+        rw [hit]
+      · show (post prm ip sqrt (bw2 prm ip sqrt A Prec rhs st) (bx prm ip sqrt A Prec st)).2 = _
+        rw [ebx]; exact p2
+      · show RelW prm (post prm ip sqrt (bw2 prm ip sqrt A Prec rhs st) (bx prm ip sqrt A Prec st)).1 _
+        rw [ebx]; exact p1
+
+/-- **one pass of the `while` body on related states** -/
+theorem body_rel (prm : Params K) (ip : Vec K → Vec K → K) (sqrt : K → K) (A : CRS K) (Prec : Vec K → Vec K)
+    (Pv : FArr (Vec K)) (rhs : Vec K) (epsT : K) (st st' : St K) (h : Rel prm st st') :
+    (∃ t t', body prm ip sqrt A Prec Pv rhs epsT st = .ok t ∧ body prm ip sqrt A Prec Pv rhs epsT st' = .ok t' ∧
+       Rel prm t t') ∨
+    (∃ e t t', body prm ip sqrt A Prec Pv rhs epsT st = .error (e, t) ∧
+       body prm ip sqrt A Prec Pv rhs epsT st' = .error (e, t') ∧ Rel prm t t') := by
+  rw [body_eq, body_eq]
+  rcases kLoop_rel prm ip sqrt A Prec Pv epsT prm.s 0 _ _ (by omega) (bodyF_rel prm ip Pv st st' h) with
+    ⟨t, t', h1, h2, h3⟩ | ⟨e, t, t', h1, h2, h3⟩
+  · rw [h1, h2]
+    exact tail_rel prm ip sqrt A Prec rhs epsT t t' h3.1
+  · rw [h1, h2]
+    right
+    exact ⟨e, t, t', rfl, rfl, h3⟩
+
+/-- `init` overwrites everything the loop reads -/
+theorem init_rel (prm : Params K) (ws ws' : Work K) (x0 r : Vec K) (n : K) :
+    Rel prm (init prm ws x0 r n) (init prm ws' x0 r n) := by
+  obtain ⟨a1, a2, a3, a4⟩ := initW_spec prm ws x0 r
+  obtain ⟨b1, b2, b3, b4⟩ := initW_spec prm ws' x0 r
+  refine ⟨rfl, rfl, rfl, rfl, rfl, ?_⟩
+  rw [init_w, init_w]
+  refine ⟨by rw [a1, b1], fun hs => ?_, fun i hi => ?_, fun i j hi hj => ?_⟩
+  · rw [(a2 hs).1, (a2 hs).2, (b2 hs).1, (b2 hs).2]; exact ⟨rfl, rfl⟩
+  · rw [(a3 i hi).1, (a3 i hi).2, (b3 i hi).1, (b3 i hi).2]; exact ⟨rfl, rfl⟩
+  · rw [a4 i j hi hj, b4 i j hi hj]
+
+/-- the two runs of the `while` loop end with the same outcome and in related states -/
+theorem final_rel (prm : Params K) (ip : Vec K → Vec K → K) (sqrt : K → K) (A : CRS K) (Prec : Vec K → Vec K)
+    (Pv : FArr (Vec K)) (ws ws' : Work K) (f x0 : Vec K) (nf : K) :
+    (final prm ip sqrt A Prec Pv ws f x0 nf).1 = (final prm ip sqrt A Prec Pv ws' f x0 nf).1 ∧
+    Rel prm (final prm ip sqrt A Prec Pv ws f x0 nf).2 (final prm ip sqrt A Prec Pv ws' f x0 nf).2 := by
+  apply loopE_rel (cond prm.maxiter (epsTol prm nf)) (body prm ip sqrt A Prec Pv f (epsTol prm nf)) (Rel prm)
+  · intro s s' h
+    obtain ⟨hit, hres, _, hbrk, _⟩ := h
+    simp only [cond, hit, hres, hbrk]
+  · intro s s' h _
+    exact body_rel prm ip sqrt A Prec Pv f _ s s' h
+  · exact init_rel prm ws ws' x0 _ _
+
+/-- **C15 for IDR(s)**: outcome (returned pair or exception kind) and the caller's `x` — also the partially updated
+`x` after an exception — do not depend on the state of the work space, for ALL inputs -/
+theorem run_obs_indep (prm : Params K) (ip : Vec K → Vec K → K) (sqrt : K → K) (eps : K) (A : CRS K)
+    (Prec : Vec K → Vec K) (Pv : FArr (Vec K)) (ws ws' : Work K) (f x0 : Vec K) :
+    (run prm ip sqrt eps A Prec Pv ws f x0).obs = (run prm ip sqrt eps A Prec Pv ws' f x0).obs := by
+  cases hp : prologueA prm.nsSearch ip sqrt eps f with
+  | trivial n =>
+    rw [run_trivial prm ip sqrt eps A Prec Pv ws f x0 n hp, run_trivial prm ip sqrt eps A Prec Pv ws' f x0 n hp]
+    rfl
+  | go nf =>
+    rw [run_go prm ip sqrt eps A Prec Pv ws f x0 nf hp, run_go prm ip sqrt eps A Prec Pv ws' f x0 nf hp]
+    by_cases hc : ¬ epsTol prm nf < nrmA ip sqrt (residual f A x0)
+    · rw [if_pos hc, if_pos hc]; rfl
+    · rw [if_neg hc, if_neg hc]
+      obtain ⟨he, hit, hres, _, _, hx, _, hsm, _, _⟩ := final_rel prm ip sqrt A Prec Pv ws ws' f x0 nf
+      cases h : final prm ip sqrt A Prec Pv ws f x0 nf with
+      | mk oe st =>
+        cases h' : final prm ip sqrt A Prec Pv ws' f x0 nf with
+        | mk oe' st' =>
+          rw [h, h'] at he hit hres hx hsm
+          simp only at he hit hres hx hsm
+          subst he
+          cases oe with
+          | some e => simp only [Run.obs, hx]
+          | none =>
+            simp only [Run.obs, hit, hres, hx]
+            cases hs : prm.smoothing with
+            | false => simp only [Bool.false_eq_true, if_false]
+            | true => simp only [if_true, (hsm hs).1]
+
+/-- the history form: any sequence of calls on one solver object (also through calls that threw) returns what fresh
+objects return -/
+theorem history_eq_fresh (prm : Params K) (ip : Vec K → Vec K → K) (sqrt : K → K) (eps : K) (Pv : FArr (Vec K))
+    (w w0 : Work K) (cs : List (Call K)) :
+    history (call prm ip sqrt eps Pv) w cs = cs.map (fun c => (call prm ip sqrt eps Pv w0 c).1) :=
+  history_eq_fresh_of_indep _ (fun a b c => run_obs_indep prm ip sqrt eps c.A c.P Pv a b c.f c.x0) w0 w cs
+
 end Amgcl.Solver.IDRs
